@@ -22,7 +22,7 @@ P = {
    "Trusted: refjq's frame model (DESIGN.md 4.2). Reads of names living only in a caller's frame (dynamic scope) are unspecified and never generated.", "5/C08, 4.2"),
  "C09": ("exploration", "rapid stateful (model-based) PBT: straight-line programs built one action per step, every variable and $ dumped after each step, differential against a reference location model; plus a model-free metamorphic check (read-only programs leave the document unchanged)",
    "6k (120k thorough) histories of up to 15 (40) actions over variables, unset names and $-paths: stores through chains of depth 1-4 with every index class, op=, ++/--, aliasing, stores through parameters and for-in variables, reads of missing paths; all variables and the document are compared with refjq after every action and GetRootJson at the end. 6k (120k) read-only programs must leave the document bit-for-bit equal. Exploration (stateful model-based).",
-   "Trusted: refjq's location model (DESIGN.md 4.3). Open finding KF-array-alias (array length per copy) is excluded dynamically: actions that change the length of an array held in two places are dropped at generation time and counted.", "5/C09, 4.3"),
+   "Trusted: refjq's location model (DESIGN.md 4.3). The former open finding KF-array-alias (array length per copy, D11) is repaired (6b0c01c); its exclusion class is dormant and all aliasing, length changes included, is asserted.", "5/C09, 4.3"),
  "C10": ("exploration", "rapid PBT, metamorphic over run histories: sessions of interleaved repeated runs (A B A C B A ...) in one process, plus fresh-process repeats through the binary that must also agree with the run inside the long-lived process; every execution of the same (program, selectors, input) must be byte-identical in stdout, JSON output and error",
    "2.5k (60k thorough) sessions of 2-4 triples x 8 executions each: objects with 2-12 keys printed / iterated / formatted from every source, method lookups of every prototype, 'intruder' programs that assign to method names and builtins, and programs from five other generators including failing ones. Exploration (metamorphic: repeat / interleave).",
    "Probabilistic for randomised orders (<= 3^-7 per case with >= 3 keys); state leaking between runs is only found if some generated program observes it.", "5/C10"),
@@ -37,7 +37,7 @@ P = {
    "Trusted: lang.EvalProgram + GetRootJson as the reference for the binary. A watchdog kill (20 s) is inconclusive and dropped.", "5/C14"),
  "C15": ("exploration", "rapid stateful (model-based) PBT: one list operation per step on five arrays, results and all contents printed after every step, differential against a reference list model",
    "6k (120k thorough) histories of up to 20 (60) operations - push, pop, popfirst, index read/write with every index class, length, contains, sort, and method calls nested in each other's arguments - on arrays held by variables, by the document and by an object; after every step the result and every array with its length are compared with refjq's ideal list, and the final document with the reference root. Exploration (stateful model-based).",
-   "Trusted: refjq's list model (DESIGN.md 4.8, section 3.6 for contains, string form for sort). Arrays are reached through the name or path that holds them, as the property states; aliasing is C09's subject (KF-array-alias excluded dynamically).", "5/C15, 4.8"),
+   "Trusted: refjq's list model (DESIGN.md 4.8, section 3.6 for contains, string form for sort). Arrays are reached through the name or path that holds them, as the property states; aliasing is C09's subject.", "5/C15, 4.8"),
  "C16": ("exploration", "rapid PBT with direct oracles per contract: algebraic laws (round trip join/split, idempotence, receiver unchanged), exact rational arithmetic for floor/ceil/round and num(), an explicit model for pluck; misuse cases differential against refjq",
    "20k (600k thorough) contract cases over strings (all valid UTF-8, separators at the ends / doubled / overlapping / empty), doubles (halves of both signs, 2^52 and 2^53 neighbourhoods, tiny), objects x key lists (present, absent, repeated, numeric, method-named) and numeric strings; 8k (200k) misuse cases (every method and builtin x every receiver kind x 0-3 arguments) must give a value or a runtime error and agree with refjq where it specifies. Exploration (algebraic laws + reference).",
    "Trusted: Go's unicode tables for non-ASCII case mapping, math/big, and json() as the observation device. Exotic numeric strings (hex floats, inf/nan, underscores, surrounding whitespace, overflow) are not asserted.", "5/C16, 4.8"),
